@@ -3,6 +3,8 @@ package main
 import (
 	"encoding/binary"
 	"fmt"
+
+	rwp "github.com/SKAARHOJ/rawpanel-lib/ibeam_rawpanel"
 )
 
 func init() {
@@ -65,6 +67,29 @@ func genC10(tier string, rng *Rng) {
 		// allocation measured with nothing else running
 		cs := ConnScript{Items: []Item{ackItem(), good(3), {Kind: "raw", Data: Lit(hdr(v))}, good(77)}, Segs: []SegCut{{0, 6}, {60, gl}, {150, 4 + gl}}, End: "none"}
 		add("over-limit-mem", 650, true, cs)
+	}
+	// ---- the fault coincides with OUTBOUND back-pressure: the panel has stopped reading, the
+	// application keeps handing in large states (the writer goroutine is blocked inside conn.Write);
+	// then an over-limit prefix / a frame that stalls in its payload arrives.  The connection must be
+	// dropped as promptly as ever (only closing the socket frees the writer) and a reconnect follow
+	// (seed C10-8: teardown that joins the writer BEFORE closing the socket never gets there)
+	for _, fault := range []string{"over", "stall"} {
+		cs := ConnScript{Items: []Item{ackItem(), good(3)}, Segs: []SegCut{{0, 6}, {60, gl}}, End: "none"}
+		cancel := 0
+		if fault == "over" {
+			cs.Items = append(cs.Items, Item{Kind: "raw", Data: Lit(hdr(500000))}, good(77))
+			cs.Segs = append(cs.Segs, SegCut{900, 4 + gl})
+			cancel = 900 + 1000 + 700 // drop at 900, reconnect 1900
+		} else {
+			cs.Items = append(cs.Items, Item{Kind: "raw", Data: Lit(append(hdr(100), 1, 2, 3, 4, 5, 6, 7, 8, 9, 10))})
+			cs.Segs = append(cs.Segs, SegCut{900, 14})
+			cancel = 900 + 2000 + 1000 + 700 // payload deadline 2900, reconnect 3900
+		}
+		sc := &Scenario{ID: fmt.Sprintf("backpressure-%s-%d", fault, len(scs)), Entry: "client", Conns: []ConnScript{cs, goodConn(1, 2)}, Cancel: cancel,
+			ReadPauseFrom: 150, ReadPauseTo: 0, FloodKB: 16384, SubStart: 200,
+			Subs: [][]Submission{{{Msgs: []*rwp.InboundMessage{{FlowMessage: rwp.InboundMessage_PING}}}}}}
+		scs = append(scs, sc)
+		hist["backpressure"]++
 	}
 	// just below the limit: accepted (allocation), then the payload stalls
 	for _, v := range []uint32{499999, 499998, 70000} {
